@@ -123,6 +123,10 @@ def run_pieces(c):
             r['d_sym'] = fin(fo.gradient['consumption'])
             if p.get('tree'):
                 r['tree'] = expr_to_json(e)
+            try:  # the pure-Python evaluator (only defined when the formula has no Variable)
+                r['u_sym_py'] = fin(e.get_value())
+            except Exception:  # noqa
+                r['u_sym_py'] = None
         except Exception as ex:  # noqa
             r['u_sym'] = exc(ex)
             r['d_sym'] = exc(ex)
